@@ -166,4 +166,9 @@ func VerifC17Mcrew() {
 	ts.Shutdown()
 	time.Sleep(10 * time.Millisecond)
 	verif.Assert("no-goroutine-left-after-shutdown", verif.Quiesce() == 0)
+	// timer activity never corrupts shared state: no data race among the accesses of the code under test
+	for _, r := range verif.RaceReports() {
+		verif.Note("race: " + r)
+		verif.Assert("no-data-race", false)
+	}
 }
